@@ -9,7 +9,7 @@ import shutil
 from pathlib import Path
 
 from .. import core
-from ..gen_project import DEFAULT_CFG, gen_project, write_project
+from ..gen_project import DEFAULT_CFG, LANG_CFGS, gen_project, write_project
 
 PROP = "C10"
 LEVEL_NOTE = ("theorems hold for every rule plug-in (parameters of the orchestrator model); the real rules' hidden state is "
@@ -59,7 +59,7 @@ def impl_case(args) -> dict:
     try:
         files = gen_project(rng, rng.choice([4, 6, 8, 10]), dup_share=0.5)
         # the project's configuration changes what per-file rules report, so that a run which loses it is visible
-        cfg0 = DEFAULT_CFG + rng.choice(["", "nesting:\n  max_nesting_depth: 2\nmagic-numbers:\n  allowed_numbers: [0, 1]\n  max_small_integer: 1\n"])
+        cfg0 = DEFAULT_CFG + rng.choice(["", "nesting:\n  max_nesting_depth: 2\nmagic-numbers:\n  allowed_numbers: [0, 1]\n  max_small_integer: 1\n"] + LANG_CFGS[1:])
         write_project(proj, files, cfg0)
         # root markers: the project root is where the highest-priority marker is (.git, then .thailint.yaml/.json, then
         # pyproject.toml), not the nearest directory with any marker - a sub-package with its own pyproject.toml is not a root
